@@ -75,6 +75,7 @@ impl Property for C04 {
             note: String::new(),
             decoy_in_cwd: false,
             echo_mode: false,
+            extra: Default::default(),
         };
         for _ in 0..rng.small(0, 4) {
             let a = gen_arg(rng, false, false);
